@@ -4,5 +4,6 @@ CONSTANTS Keys = {1, 2}
           Zero = {2}
           D = 2
           GAttrs = {"ok"}
+          GDiag = TRUE
 INVARIANTS Emit
 CHECK_DEADLOCK FALSE
